@@ -212,6 +212,13 @@ def readonly_literal_table(module_tree, class_node, name, literal=True):
             ast.literal_eval(val)
         except Exception:
             return False
+    elif isinstance(val, ast.Call) and isinstance(val.func, ast.Name) \
+            and val.func.id in ('frozenset', 'set', 'tuple', 'list') \
+            and len(val.args) == 1 and not val.keywords and all(
+                isinstance(x, (ast.Tuple, ast.List, ast.Set, ast.Constant,
+                               ast.Name, ast.Attribute, ast.Load))
+                for x in ast.walk(val.args[0])):
+        pass        # frozenset([...]) of constants / names
     elif not all(isinstance(x, (ast.Dict, ast.Tuple, ast.List, ast.Constant,
                                 ast.Name, ast.Attribute, ast.Load,
                                 ast.UnaryOp, ast.USub))
